@@ -16,6 +16,7 @@ func init() {
 	generators["c01neg"] = genC01Neg
 	generators["c02stream"] = genC02Stream
 	generators["c02short"] = genC02Short
+	generators["c02deep"] = genC02Deep
 	runners["encode"] = runEncode
 }
 
@@ -402,6 +403,36 @@ func genC02Stream(g *Gen) {
 			buf = append(buf, r.Bytes(1+r.Intn(5))...)
 		}
 		g.emit("stream", hx(buf))
+	}
+}
+
+// well-formed requests nested far deeper than ordinary ones (filters of and / or / not chains,
+// and constructed controls values): depth is the client's choice, and everything that walks the
+// tree (decoding, the packet dumps of the debug logger) has to take it
+func genC02Deep(g *Gen) {
+	depths := []int{8, 16, 30, 31, 32, 33, 34, 40, 64, 127, 128, 200, 1000}
+	for _, d := range depths {
+		for _, kind := range []string{"and", "or", "not", "mixed"} {
+			f := &TFilter{Kind: "present", A: []byte("cn")}
+			for i := 0; i < d; i++ {
+				k := kind
+				if kind == "mixed" {
+					k = []string{"and", "or", "not"}[i%3]
+				}
+				f = &TFilter{Kind: k, Subs: []*TFilter{f}}
+			}
+			q := &TReq{Kind: "search", ID: int64(d), DN: []byte("dc=x"), Scope: 2, Filter: f}
+			g.emit("decode", hx(encodeReq(q).encode()))
+		}
+		// nesting outside the filter: a chain of constructed nodes where the attribute list is
+		n := nOct([]byte("cn"))
+		for i := 0; i < d; i++ {
+			n = nSeq(n)
+		}
+		root := encodeReq(&TReq{Kind: "search", ID: int64(d), DN: []byte("dc=x"), Scope: 2, Filter: &TFilter{Kind: "present", A: []byte("cn")}})
+		op := root.Kids[1]
+		op.Kids[len(op.Kids)-1] = n
+		g.emit("decode", hx(root.encode()))
 	}
 }
 
